@@ -235,6 +235,12 @@ fn main() {
             run_one("send-buffer", &buf, lim(if thorough { 7 } else { 5 }, 3, false, if thorough { 600 } else { 30 }), &mut ev, &mut rep, "tree");
             let gbuf = c20::gated_buffer_scenario();
             run_one("send-buffer-slow-server", &gbuf, lim(if thorough { 8 } else { 6 }, 3, false, if thorough { 600 } else { 30 }), &mut ev, &mut rep, "tree");
+            let (nt, tsamples) = c20::run_typed(&mut rep);
+            ev.add("evaluations", nt);
+            ev.set("typed_result_comparisons", serde_json::json!(nt));
+            for s in tsamples.into_iter().take(3) {
+                ev.push_sample(s);
+            }
             let (n, samples) = c20::run_unsubscribe(&mut rep);
             ev.add("evaluations", n);
             ev.set("unsubscribe_variants_checked", serde_json::json!(n));
@@ -266,7 +272,7 @@ fn main() {
                 (
                     "aggregator".into(),
                     Box::new(c16::agg_scenario()),
-                    Tiered { quick: lim(7, 5, false, 45), thorough: lim(8, 6, false, 600) },
+                    Tiered { quick: lim(6, 5, false, 45), thorough: lim(8, 6, false, 600) },
                     "tree",
                 ),
                 (
@@ -299,7 +305,7 @@ fn main() {
                 (
                     "full-alphabet".into(),
                     Box::new(props_session::c13(&known, true)),
-                    Tiered { quick: lim(4, 2, true, 40), thorough: lim(4, 3, true, 500) },
+                    Tiered { quick: lim(4, 2, true, 40), thorough: lim(5, 3, true, 500) },
                     "graph",
                 ),
                 (
